@@ -168,6 +168,13 @@ def run(chk, ctx):
     chk.floor('C02.M', 14, 'properties on the encode side')
 
     # ---- decode side
+    # a decoded header is built from its frame alone
+    from .c16 import decode_keeps_state
+    kept_ = decode_keeps_state(ctx)
+    chk.ob('C02.U', 'decode side keeps no state', not kept_,
+           'no memoising wrapper and no write to module- or class-level '
+           'objects on the decode side' if not kept_ else
+           '; '.join(kept_[:2]), site='pamqp/frame.py / pamqp/header.py')
     hsize = 7
     d = H.decode(ctx, flag_offset=hsize + 12)
     if len(d['rets']) != 1:
